@@ -66,6 +66,7 @@ type Reader struct {
 	// mutable fields of the reader (synchronized on the mutex)
 	mutex   sync.Mutex
 	join    sync.WaitGroup
+	joinGen *sync.WaitGroup // the fetchers started by the latest call to start (one consumer group generation)
 	cancel  context.CancelFunc
 	stop    context.CancelFunc
 	done    chan struct{}
@@ -108,10 +109,15 @@ func (r *Reader) getTopics() []string {
 // async commits.
 func (r *Reader) useSyncCommits() bool { return r.config.CommitInterval == 0 }
 
-func (r *Reader) unsubscribe(cancel context.CancelFunc) {
+func (r *Reader) unsubscribe(cancel context.CancelFunc, join *sync.WaitGroup) {
 	if verifOn { verifEvent("R.Unsubscribe", r, "begin") }
 	cancel()
-	r.join.Wait()
+	// wait for the fetchers of THIS generation only: r.join is shared with the
+	// next generation, whose start may already be adding to it (WaitGroup.Add
+	// concurrent with Wait is a misuse of the WaitGroup and a data race).
+	if join != nil {
+		join.Wait()
+	}
 	if verifOn { verifEvent("R.Unsubscribe", r, "end") }
 	// it would be interesting to drain the r.msgs channel at this point since
 	// it will contain buffered messages for partitions that may not be
@@ -353,6 +359,7 @@ func (r *Reader) run(cg *ConsumerGroup) {
 		// routine which may be scheduled after the next generation subscribed.
 		r.mutex.Lock()
 		cancel := r.cancel
+		joinGen := r.joinGen
 		r.mutex.Unlock()
 
 		gen.Start(func(ctx context.Context) {
@@ -366,7 +373,7 @@ func (r *Reader) run(cg *ConsumerGroup) {
 			case <-r.stctx.Done():
 				// this will be the last loop because the reader is closed.
 			}
-			r.unsubscribe(cancel)
+			r.unsubscribe(cancel, joinGen)
 		})
 	}
 }
@@ -1229,10 +1236,14 @@ func (r *Reader) start(offsetsByPartition map[topicPartition]int64) {
 	version := r.version
 
 	r.join.Add(len(offsetsByPartition))
+	joinGen := new(sync.WaitGroup)
+	joinGen.Add(len(offsetsByPartition))
+	r.joinGen = joinGen
 	for key, offset := range offsetsByPartition {
 		if verifOn { verifEvent("RF.Start", r, key.topic, version, offset) }
 		go func(ctx context.Context, key topicPartition, offset int64, join *sync.WaitGroup) {
 			defer join.Done()
+			defer joinGen.Done()
 
 			(&reader{
 				dialer:           r.config.Dialer,
